@@ -26,6 +26,20 @@ Theorem C17_run_error : forall cfg s, ready_on_error cfg = false -> reachable cf
 Proof. exact c17_run_error. Qed.
 Print Assumptions C17_run_error.
 
+(* the hypothesis [accept_failed s = false] above is a theorem of the current tree
+   (accept errors are retried): Ready() = true and no Stop imply a bound socket, Run in
+   its loop, and a served connection attempt - with no exception *)
+Theorem C17_accept_never_fails : forall cfg s, accept_retry cfg = true -> reachable cfg s -> accept_failed s = false.
+Proof. exact accept_never_fails. Qed.
+Print Assumptions C17_accept_never_fails.
+
+Theorem C17_ready_listening_unconditional : forall cfg s,
+  accept_retry cfg = true -> ready_on_error cfg = false -> reachable cfg s -> alive s = true ->
+  ready s = true -> stops s = [] ->
+  step cfg s EConnect <> None /\ in_loop (run s) = true /\ lst s = Listening.
+Proof. exact c07_accepting_despite_accept_errors. Qed.
+Print Assumptions C17_ready_listening_unconditional.
+
 Theorem C17_pinned_refuted : exists s, run_labels pinned_cfg init [ECallRun true false; LRun] = Some s /\ run s = RRet true /\ ready s = true.
 Proof. exact c17_pinned_refuted. Qed.
 Print Assumptions C17_pinned_refuted.
